@@ -90,6 +90,15 @@ fn lib_function(name: String, spec: &str, rec: Recorder) -> Function<DefaultNume
                 _ => Err(EvalexprError::expected_int(a.clone())),
             }
         }),
+        // the way a user function written with the typed accessors of Value answers
+        "needfloat" => Function::new(move |a| {
+            rec.record(&name, a);
+            a.as_float().map(Value::Float)
+        }),
+        "neednumber" => Function::new(move |a| {
+            rec.record(&name, a);
+            a.as_number().map(|_| a.clone())
+        }),
         other => panic!("unknown library function {}", other),
     }
 }
